@@ -291,13 +291,13 @@ pub fn gen_docs(kind: &str, opts: &Opts, rng: &mut Rng) -> Vec<Vec<Child>> {
                 a[2].clone(),
                 a[5].clone(),
                 a[4].clone(),
+                a[8].clone(), // <ok></ok>: inside the exhaustive part
                 a[6].clone(),
                 a[7].clone(),
-                a[8].clone(),
                 a[9].clone(),
             ]
         };
-        for inner in seqs(&inner_alpha, 5, if thorough { 5 } else { 4 }, rng) {
+        for inner in seqs(&inner_alpha, 6, if thorough { 5 } else { 4 }, rng) {
             docs.push(vec![Child::Results(inner)]);
         }
         let n = if thorough { 3000 } else { 300 };
@@ -321,7 +321,12 @@ pub fn gen_docs(kind: &str, opts: &Opts, rng: &mut Rng) -> Vec<Vec<Child>> {
         }
     } else {
         // top-level alphabet: ok, errE, errW, data, comment (+ random extras)
-        for d in seqs(&|r| alphabet(r), 5, if thorough { 5 } else { 4 }, rng) {
+        // … and the start/end form <ok></ok> (sixth letter of the exhaustive part)
+        let top_alpha = |r: &mut Rng| {
+            let a = alphabet(r);
+            vec![a[0].clone(), a[1].clone(), a[2].clone(), a[3].clone(), a[4].clone(), a[8].clone()]
+        };
+        for d in seqs(&top_alpha, 6, if thorough { 5 } else { 4 }, rng) {
             docs.push(d);
         }
         let n = if thorough { 3000 } else { 300 };
